@@ -228,7 +228,15 @@ def readFromStream(substrate, size=-1, context=None):
     """
     while True:
         # this will block unless stream is non-blocking
-        received = substrate.read(size)
+        try:
+            received = substrate.read(size)
+
+        except OverflowError:
+            # no stream can hold that many octets
+            raise error.SubstrateUnderrunError(
+                'Requested %s octets, more than can possibly be available' % size,
+                context=context)
+
         if received is None:  # non-blocking stream can do this
             yield error.SubstrateUnderrunError(context=context)
 
